@@ -157,6 +157,10 @@ var seedExpectations = []seedExpect{
 	{"glsl-texture-argument-type", "C05", "imagetype.viaglobal", "resolveImageType"},
 	{"hlsl-texture-argument-type", "C03", "imagetype.viaglobal", "getStorageLoadHelper"},
 	{"glsl-reserved-prefix", "C16", "names.genformat", "reserved-prefix:gl_"},
+	{"user-function-shadow", "C08", "call.usershadow", "lowerCall"},
+	{"user-function-shadow", "C19", "call.usershadow", "lowerCall"},
+	{"local-const-shadow", "C08", "lookup.innerfirst", "evalConstantIdent"},
+	{"local-const-shadow", "C11", "lookup.innerfirst", "evalConstantIdent"},
 	{"glsl-vector-select", "C05", "select.condshape", "writeSelect"},
 	{"glsl-image-atomic-coord", "C05", "image.coordbuilder", "writeImageAtomic"},
 	{"glsl-shallow-feature-scan", "C05", "walker.shallow", "scanStatementsForFeatures"},
